@@ -7,6 +7,10 @@ from replay.run import model_ints
 
 
 def replay(obligation, extra):
+    from replay import pongrace
+    r = pongrace.check()
+    if r:
+        return r
     lens = sorted(set([0, 1, 2, 124, 125] + [n for n in model_ints(obligation.get('model')) if n <= 125]))
     pings = [bytes((i * 7 + n) % 256 for i in range(n)) for n in lens]
     tried = 0
